@@ -154,6 +154,8 @@ class Exec(object):
         self.wrap_types = set()
         self.track_init = False
         self.track_own = False
+        self.scalar_targets = {}
+        self.scan_scalar_targets()
         self.own_types = set()
         self.check_wide_ovf = False
         if self.spec:
@@ -572,6 +574,57 @@ class Exec(object):
             return a[3]
         return None
 
+    def scan_scalar_targets(self):
+        """scalar struct fields whose address is kept as a value in this function (`ptr = &s.f`, passed on, merged):
+        pointers of that element type may designate them"""
+        fn = self.fn
+        fa = {}
+        for b in fn.get('blocks') or []:
+            for ins in b['instrs']:
+                if ins.get('op') == 'FieldAddr' and ins.get('name'):
+                    fa[ins['name']] = ins
+        if not fa:
+            return
+        used = set()
+        for b in fn.get('blocks') or []:
+            for ins in b['instrs']:
+                op = ins.get('op')
+                vals = []
+                if op == 'Store':
+                    vals = [ins.get('val')]
+                elif op == 'Phi':
+                    vals = ins.get('edges') or []
+                elif op in ('Call', 'Go', 'Defer'):
+                    vals = list(ins['call'].get('args') or [])
+                elif op == 'MakeClosure':
+                    vals = ins.get('bindings') or []
+                elif op == 'Return':
+                    vals = ins.get('results') or []
+                for v_ in vals:
+                    if isinstance(v_, dict) and v_.get('k') == 'reg' and v_.get('n') in fa:
+                        used.add(v_['n'])
+        for n in used:
+            ins = fa[n]
+            xt = ins['x'].get('type') or ''
+            if not xt.startswith('*'):
+                continue
+            stid = xt[1:]
+            try:
+                f = self.struct_fields(stid)[ins['field']]
+            except Exception:
+                continue
+            if self.is_scalar(f['type']) and not self.is_string(f['type']):
+                lst = self.scalar_targets.setdefault(self.elem_key(f['type']), [])
+                if (stid, f['name'], f['type']) not in lst:
+                    lst.append((stid, f['name'], f['type']))
+
+    def field_ptr_parts(self, stid, fname, p):
+        """(address of the struct, condition) for a pointer value p that may be &s.fname of a struct of type stid"""
+        self.subaddr(stid, fname, ZERO)          # declares the address function and its inverse
+        fn_ = 'sub:%s.%s' % (self.tname(stid), fname)
+        inv_ = app(fn_ + '~', (p,), INT)
+        return inv_, eq(app(fn_, (inv_,), INT), p)
+
     def field_heap(self, st, stid, path, sort):
         return self.heap_get(st, 'HF:%s.%s' % (self.tname(stid), path), arr(sort))
 
@@ -637,7 +690,14 @@ class Exec(object):
         if self.is_scalar(tid):
             h = self.heap_get(st, 'HB:' + self.elem_key(tid), arr(self.sort_of(tid)))
             self.valid_scalar_heap(h, tid, False)
-            return self.wrap_scalar(select(h, p), tid, st)
+            v_ = select(h, p)
+            # the pointer may be the address of a scalar struct field that was taken in this function (&s.f)
+            for stid_, fname_, ftid_ in self.scalar_targets.get(self.elem_key(tid), ()):
+                inv_, cond_ = self.field_ptr_parts(stid_, fname_, p)
+                fh_ = self.field_heap(st, stid_, fname_, self.sort_of(ftid_))
+                self.valid_scalar_heap(fh_, ftid_, False)
+                v_ = ite(cond_, select(fh_, inv_), v_)
+            return self.wrap_scalar(v_, tid, st)
         if k == 'slice':
             nm = 'HF:' + self.prog.short(tid) + '.'
             hs = dict((s, self.heap_get(st, nm + s, ARR_II)) for s in ('arr', 'off', 'len', 'cap'))
@@ -666,7 +726,19 @@ class Exec(object):
             put('HF:string.off', INT, v.off)
             put('HF:string.len', INT, v.len)
         elif self.is_scalar(tid):
-            put('HB:' + self.elem_key(tid), self.sort_of(tid), self.scalar_term(v))
+            val_ = self.scalar_term(v)
+            conds_ = []
+            for stid_, fname_, ftid_ in self.scalar_targets.get(self.elem_key(tid), ()):
+                inv_, cond_ = self.field_ptr_parts(stid_, fname_, p)
+                nm_ = 'HF:%s.%s' % (self.tname(stid_), fname_)
+                fh_ = self.heap_get(st, nm_, arr(self.sort_of(ftid_)))
+                st.heap[nm_] = store(fh_, inv_, ite(cond_, val_, select(fh_, inv_)))
+                conds_.append(cond_)
+            if conds_:
+                hb_ = self.heap_get(st, 'HB:' + self.elem_key(tid), arr(self.sort_of(tid)))
+                st.heap['HB:' + self.elem_key(tid)] = store(hb_, p, ite(or_(*conds_), select(hb_, p), val_))
+            else:
+                put('HB:' + self.elem_key(tid), self.sort_of(tid), val_)
         elif k == 'slice':
             nm = 'HF:' + self.prog.short(tid) + '.'
             put(nm + 'arr', INT, v.arr)
@@ -1079,7 +1151,11 @@ class Exec(object):
             if r[0] == 'obj' and r[1] == tname and (r[3] is None or fname is None or r[3] == fname):
                 ds.append(eq(p, r[2]))
             elif r[0] == 'fresh':
-                ds.append(ge(self.root_of(p), r[1]))
+                rp_ = self.root_of(p)
+                ds.append(ge(rp_, r[1]))
+                if not (rp_.op == 'const' and rp_.val.startswith(('p:', 'alloc'))):
+                    # a field / element address held in a pointer variable: fresh if the object it lies in is
+                    ds.append(and_(lt(rp_, ZERO), ge(self.root(rp_), r[1])))
             elif r[0] == 'any':
                 return TRUE
             elif r[0] == 'objs':
